@@ -739,3 +739,22 @@ func U64(vs ...uint64) string {
 	}
 	return string(b)
 }
+
+// ExtraString returns a string stored with Extra (workers can hand small results to the coordinator this way).
+func (r *Run) ExtraString(k string) (string, bool) {
+	r.mu.Lock()
+	defer r.mu.Unlock()
+	v, ok := r.extra[k].(string)
+	return v, ok
+}
+
+// DropExtraPrefix removes all extras whose key starts with prefix (so that they do not end up in the evidence).
+func (r *Run) DropExtraPrefix(prefix string) {
+	r.mu.Lock()
+	defer r.mu.Unlock()
+	for k := range r.extra {
+		if strings.HasPrefix(k, prefix) {
+			delete(r.extra, k)
+		}
+	}
+}
